@@ -20,17 +20,19 @@ Implementation: Delegation to matcher for cross-reference logic, violation build
 """
 
 import re
+from fnmatch import fnmatch
 from pathlib import Path
 
 from src.core.base import BaseLintContext, BaseLintRule
 from src.core.constants import Language
 from src.core.types import Violation
 
+from .config import LazyIgnoresConfig
 from .header_parser import SuppressionsParser
 from .matcher import IgnoreSuppressionMatcher
 from .python_analyzer import PythonIgnoreDetector
 from .skip_detector import TestSkipDetector
-from .types import IgnoreDirective
+from .types import IgnoreDirective, IgnoreType
 from .typescript_analyzer import TypeScriptIgnoreDetector
 from .violation_builder import build_orphaned_violation, build_unjustified_violation
 
@@ -85,11 +87,22 @@ class LazyIgnoresRule(BaseLintRule):
         if not context.file_content:
             return []
 
+        section = _config_section(context)
+        if section.get("enabled", True) is False:
+            return []
+
         file_path = str(context.file_path) if context.file_path else "unknown"
-        return self.check_content(context.file_content, file_path, context.language)
+        config = LazyIgnoresConfig.from_dict(section)
+        if any(fnmatch(file_path, pattern) for pattern in config.ignore_patterns):
+            return []
+        return self.check_content(context.file_content, file_path, context.language, config)
 
     def check_content(
-        self, code: str, file_path: str, language: str | Language = Language.PYTHON
+        self,
+        code: str,
+        file_path: str,
+        language: str | Language = Language.PYTHON,
+        config: LazyIgnoresConfig | None = None,
     ) -> list[Violation]:
         """Check code for unjustified ignores and orphaned suppressions.
 
@@ -118,13 +131,16 @@ class LazyIgnoresRule(BaseLintRule):
             test_skips = self._test_skip_detector.find_skips(code, Path(file_path), lang)
             ignores = list(ignores) + list(test_skips)
 
-        # Build set of normalized rule IDs used in code
+        # Build set of normalized rule IDs used in code (all directives count as users of a header entry)
         used_rule_ids = self._matcher.collect_used_rule_ids(ignores)
+        if config is not None:
+            ignores = [ignore for ignore in ignores if _kind_enabled(ignore.ignore_type, config)]
 
         # Find violations
         violations: list[Violation] = []
         violations.extend(self._find_unjustified(ignores, suppressions, file_path))
-        violations.extend(self._find_orphaned(suppressions, used_rule_ids, file_path, code))
+        if config is None or config.check_orphaned:
+            violations.extend(self._find_orphaned(suppressions, used_rule_ids, file_path, code))
 
         return violations
 
@@ -167,6 +183,42 @@ class LazyIgnoresRule(BaseLintRule):
             )
 
         return violations
+
+
+_KIND_SWITCH = {
+    IgnoreType.NOQA: "check_noqa",
+    IgnoreType.TYPE_IGNORE: "check_type_ignore",
+    IgnoreType.PYLINT_DISABLE: "check_pylint_disable",
+    IgnoreType.NOSEC: "check_nosec",
+    IgnoreType.PYRIGHT_IGNORE: "check_pyright_ignore",
+    IgnoreType.TS_IGNORE: "check_ts_ignore",
+    IgnoreType.TS_NOCHECK: "check_ts_ignore",
+    IgnoreType.TS_EXPECT_ERROR: "check_ts_ignore",
+    IgnoreType.ESLINT_DISABLE: "check_eslint_disable",
+    IgnoreType.THAILINT_IGNORE: "check_thailint_ignore",
+    IgnoreType.THAILINT_IGNORE_FILE: "check_thailint_ignore",
+    IgnoreType.THAILINT_IGNORE_NEXT: "check_thailint_ignore",
+    IgnoreType.THAILINT_IGNORE_BLOCK: "check_thailint_ignore",
+    IgnoreType.DRY_IGNORE_BLOCK: "check_thailint_ignore",
+    IgnoreType.PYTEST_SKIP: "check_test_skips",
+    IgnoreType.PYTEST_SKIPIF: "check_test_skips",
+    IgnoreType.JEST_SKIP: "check_test_skips",
+    IgnoreType.MOCHA_SKIP: "check_test_skips",
+}
+
+
+def _kind_enabled(ignore_type: IgnoreType, config: LazyIgnoresConfig) -> bool:
+    """Check the check_* switch of the documented configuration for a directive kind."""
+    return bool(getattr(config, _KIND_SWITCH.get(ignore_type, ""), True))
+
+
+def _config_section(context: BaseLintContext) -> dict:
+    """Return the lazy-ignores section of the loaded configuration (either key spelling)."""
+    metadata = getattr(context, "metadata", None)
+    if not isinstance(metadata, dict):
+        return {}
+    section = metadata.get("lazy-ignores", metadata.get("lazy_ignores", {}))
+    return section if isinstance(section, dict) else {}
 
 
 def _header_entry_line(code: str, rule_id: str) -> int:
